@@ -148,7 +148,7 @@ type fail struct{ fp, exp, obs string }
 
 // runOnce loads in the given order under the map-order answers of x (nil: canonical) and checks the
 // closure; it returns the sequence signature of all Values lists.
-func runOnce(g G, ord []int, x *explore.X) (f *fail, signature string) {
+func runOnce(g G, ord []int, x *explore.X, split int) (f *fail, signature string) {
 	if x != nil && order.Active() {
 		order.Install(func(n int, site string) int { return x.Choose(n, site) })
 		defer order.Install(nil)
@@ -165,10 +165,13 @@ func runOnce(g G, ord []int, x *explore.X) (f *fail, signature string) {
 	mustErr := g.cyclic() || g.Undef >= 0
 	pan, pt := core.Guard(func() {
 		ms := yang.NewModules()
-		for _, i := range ord {
+		for k, i := range ord {
 			if err := ms.Parse(files[i].Text, files[i].Name); err != nil {
 				f = &fail{"load-error", "loads", err.Error()}
 				return
+			}
+			if split > 0 && k+1 == split {
+				ms.Process() // whatever it says about the incomplete set
 			}
 		}
 		errs := ms.Process()
@@ -304,6 +307,7 @@ func leafType(e *yang.Entry) *yang.YangType {
 type Exec struct {
 	Order   []int `json:"order"`
 	Choices []int `json:"choices"`
+	Split   int   `json:"process_also_after,omitempty"` // > 0: Process is also called after this many files
 }
 
 type Input struct {
@@ -413,7 +417,7 @@ func run(c *core.Ctx) {
 	}
 	var shard int
 	fmt.Sscanf(c.Shard, "g/%d", &shard)
-	c.Res.Bound = fmt.Sprintf("all base-edge subsets over N <= %d identities (N = 4: at most 5 edges) x placements in {a, b, submodule of a} x names distinct / two equal in different modules x prefix regime (module names as prefixes; one shared own prefix; a file-local prefix in the submodule; the submodule binding its module's prefix for b to a third module with namesake identities) x spelling of local bases, plus an undefined base on sparse graphs; all 6 load orders; on graphs with equal names or a shared prefix also every single deviation of map iteration order", maxN(c.Tier))
+	c.Res.Bound = fmt.Sprintf("all base-edge subsets over N <= %d identities (N = 4: at most 5 edges) x placements in {a, b, submodule of a} x names distinct / two equal in different modules x prefix regime (module names as prefixes; one shared own prefix; a file-local prefix in the submodule; the submodule binding its module's prefix for b to a third module with namesake identities) x spelling of local bases, plus an undefined base on sparse graphs; all 6 load orders, each (quick: every second one) also with Process called after the first and after the second file; on graphs with equal names or a shared prefix also every single deviation of map iteration order", maxN(c.Tier))
 	perms := explore.Perms(3)
 	i := 0
 	enum(c.Tier, func(g G) {
@@ -434,8 +438,8 @@ func run(c *core.Ctx) {
 			c.Outcome("FAIL:" + f.fp)
 			c.Fail(caseNo, nil, f.fp, Input{G: g, A: a, B: b}, f.exp, f.obs)
 		}
-		check := func(ord []int, x *explore.X) bool {
-			f, sig := runOnce(g, ord, x)
+		check := func(ord []int, x *explore.X, split int) bool {
+			f, sig := runOnce(g, ord, x, split)
 			c.Exec()
 			c.Validate()
 			c.Edge(1)
@@ -443,8 +447,11 @@ func run(c *core.Ctx) {
 			if x != nil {
 				ch = append(ch, x.Choices...)
 			}
-			e := Exec{append([]int{}, ord...), ch}
+			e := Exec{append([]int{}, ord...), ch, split}
 			if f != nil {
+				if split > 0 {
+					f.fp += "@processed-twice"
+				}
 				report(f, e, e)
 				return false
 			}
@@ -457,8 +464,19 @@ func run(c *core.Ctx) {
 			return true
 		}
 		for _, p := range perms {
-			if !check(p, nil) {
+			if !check(p, nil, 0) {
 				return
+			}
+		}
+		// process, load more, process again: the same lists (or an error again) as in one go
+		for pi, p := range perms {
+			if c.Tier != "thorough" && pi%2 == 1 {
+				continue
+			}
+			for split := 1; split <= 2; split++ {
+				if !check(p, nil, split) {
+					return
+				}
 			}
 		}
 		equalNames := false
@@ -473,7 +491,7 @@ func run(c *core.Ctx) {
 			ok := true
 			explore.DFS(1, func(x *explore.X) {
 				if ok && len(x.Choices) >= 0 {
-					ok = check(perms[0], x)
+					ok = check(perms[0], x, 0)
 				}
 			}, nil, func() bool { return !ok || c.Expired() })
 			if !ok {
@@ -503,11 +521,11 @@ func replay(tier string, raw json.RawMessage) (bool, string, string) {
 	if !order.Active() {
 		return false, "", "needs the order variant"
 	}
-	fa, sa := runOnce(in.G, in.A.Order, explore.New(in.A.Choices))
+	fa, sa := runOnce(in.G, in.A.Order, explore.New(in.A.Choices), in.A.Split)
 	if fa != nil {
 		return true, fa.fp, fmt.Sprintf("expected %s\nobserved %s", fa.exp, fa.obs)
 	}
-	fb, sb := runOnce(in.G, in.B.Order, explore.New(in.B.Choices))
+	fb, sb := runOnce(in.G, in.B.Order, explore.New(in.B.Choices), in.B.Split)
 	if fb != nil {
 		return true, fb.fp, fmt.Sprintf("expected %s\nobserved %s", fb.exp, fb.obs)
 	}
@@ -520,7 +538,7 @@ func replay(tier string, raw json.RawMessage) (bool, string, string) {
 func init() {
 	core.Register(&core.Prop{
 		ID: "C11", Variant: "order", Shards: shards, Run: run, Replay: replay,
-		Rule:        "every labelled derivation graph within the bound, every placement, naming, prefix regime and base spelling is rendered as module a (with submodule as) and module b importing each other, with one identityref leaf per identity, and loaded in all 6 orders (and, where equal names or a shared prefix make ties possible, under every single deviation of map iteration order on the instrumented build). Oracle: reverse reachability in the generated graph - Values of every identity is exactly the set of identities deriving from it, without duplicates and without itself; the sequences are identical in every explored execution; Type.IdentityBase of each identityref leaf is the identity object its base names; an undefined base or any cycle gives an error. states = distinct programs; non-trivial = acyclic programs",
+		Rule:        "every labelled derivation graph within the bound, every placement, naming, prefix regime and base spelling is rendered as module a (with submodule as) and module b importing each other, with one identityref leaf per identity, and loaded in all 6 orders, in one go and with an additional Process after the first or the second file (and, where equal names or a shared prefix make ties possible, under every single deviation of map iteration order on the instrumented build). Oracle: reverse reachability in the generated graph - Values of every identity is exactly the set of identities deriving from it, without duplicates and without itself; the sequences are identical in every explored execution; Type.IdentityBase of each identityref leaf is the identity object its base names; an undefined base or any cycle gives an error. states = distinct programs; non-trivial = acyclic programs",
 		Assumptions: []string{"equal identity names occur only in different modules (a module and its submodules share one name space)", "the instrumented copy behaves like the original under canonical order (suite run on it each time)"},
 	})
 }
